@@ -19,6 +19,7 @@ mod crypto_ops;
 mod intro_ops;
 mod conc_ops;
 mod many_methods;
+mod librt;
 
 fn main() {
     std::panic::set_hook(Box::new(|_| {}));
@@ -49,6 +50,9 @@ pub fn dispatch(op: &str, toks: &[&str]) -> String {
         return r;
     }
     if let Some(r) = many_methods::dispatch(op, toks) {
+        return r;
+    }
+    if let Some(r) = librt::dispatch(op, toks) {
         return r;
     }
     if let Some(r) = schema_ops::dispatch(op, toks) {
